@@ -99,6 +99,7 @@ struct World {
     /// how the layer roots are SPELLED when handed to LayeredFilesystem::new (the statement does not restrict it)
     given: Vec<String>,
     canon: Vec<String>,
+    style: usize,
 }
 static COUNTER: std::sync::atomic::AtomicUsize = std::sync::atomic::AtomicUsize::new(0);
 /// 0 = every root in its plain spelling; k > 0: layer i is spelled in style (k + i) mod 6 of
@@ -145,7 +146,7 @@ impl World {
             layers.push(l);
         }
         let canon = layers.iter().map(|l| std::fs::canonicalize(l).unwrap().display().to_string()).collect();
-        World { root, layers, given, canon }
+        World { root, layers, given, canon, style }
     }
     fn layer_strings(&self) -> Vec<String> {
         self.given.clone()
@@ -173,6 +174,24 @@ fn comps_to_rel(p: &Value) -> PathBuf {
 
 /// observed environment function: what the two decompressors make of stored bytes
 fn xobs(b: &[u8]) -> Value {
+    // the walk runs after every call: remember what the decompressors said about a byte string
+    thread_local! {
+        static MEMO: std::cell::RefCell<HashMap<Vec<u8>, Value>> = std::cell::RefCell::new(HashMap::new());
+    }
+    if let Some(v) = MEMO.with(|m| m.borrow().get(b).cloned()) {
+        return v;
+    }
+    let v = xobs_compute(b);
+    MEMO.with(|m| {
+        let mut m = m.borrow_mut();
+        if m.len() > 20000 {
+            m.clear();
+        }
+        m.insert(b.to_vec(), v.clone());
+    });
+    v
+}
+fn xobs_compute(b: &[u8]) -> Value {
     let one = |r: Result<Result<Vec<u8>, CompressionError>, String>| match r {
         Ok(Ok(v)) => json!({"ok": true, "v": bytes_to_json(&v)}),
         _ => json!({"ok": false, "v": []}),
@@ -505,7 +524,7 @@ fn establish(layers: &Value, game: &str, lang: &str, events: &mut Vec<Value>) ->
     match open(&w, game, lang) {
         Ok(sys) => {
             events.push(json!({"op": "reset", "game": game, "lang": lang, "res": ok(json!([])), "same": false, "post": snap,
-                               "roots": w.spellings()}));
+                               "roots": w.spellings(), "roots_k": w.style}));
             Some((w, sys, snap))
         }
         Err(res) => {
@@ -963,7 +982,7 @@ fn record_mode(out_path: &str, runs: usize, len: usize, from: usize) {
             }
         };
         events.push(json!({"op": "reset", "game": game, "lang": lang, "res": ok(json!([])), "same": false, "post": snap.clone(),
-                           "roots": w.spellings()}));
+                           "roots": w.spellings(), "roots_k": w.style}));
         if typed_run {
             // prelude: both archive kinds of both configurations, plain and under both compressed suffixes
             let mut pre = Vec::new();
